@@ -605,6 +605,90 @@ theorem C11_id_order (d : Dict) (x : Nat) (iv : InvDecl) (spop : List SInst) (hi
     ((spop.filter (fun y => decide (Referrer d x iv y))).map (·.id)).Pairwise (· < ·) :=
   hid.sublist (List.filter_sublist.map _)
 
+/-! ### the hypotheses of `C11_exact_schema_partial` are satisfiable -/
+
+/-- a computable criterion for `InheritUnique`: per entity, the attribute names of the entity and its supertypes are distinct -/
+def inheritUniqueB (d : Dict) : Bool :=
+  d.all (fun e => decide (((typesOf d e.name).flatMap (fun o => (attrsOf d o).map (·.1))).Nodup))
+
+theorem nodup_flatMap_owner {α β} (g : α → List β) : ∀ (l : List α), (l.flatMap g).Nodup → ∀ o1 ∈ l, ∀ o2 ∈ l, ∀ a, a ∈ g o1 → a ∈ g o2 →
+    o1 = o2 := by
+  intro l
+  induction l with
+  | nil => intro _ o1 h; cases h
+  | cons hd t ih =>
+    intro hn o1 h1 o2 h2 a a1 a2
+    simp only [List.flatMap_cons, List.nodup_append] at hn
+    obtain ⟨_, hnt, hdis⟩ := hn
+    rcases List.mem_cons.mp h1 with e1 | e1 <;> rcases List.mem_cons.mp h2 with e2 | e2
+    · rw [e1, e2]
+    · subst e1
+      exact absurd rfl (hdis a a1 a (List.mem_flatMap.mpr ⟨o2, e2, a2⟩))
+    · subst e2
+      exact absurd rfl (hdis a a2 a (List.mem_flatMap.mpr ⟨o1, e1, a1⟩))
+    · exact ih hnt o1 e1 o2 e2 a a1 a2
+
+theorem inheritUnique_of_check (d : Dict) (rank : Nat → Nat) (h : Ranked d rank) (hb : inheritUniqueB d = true) : InheritUnique d := by
+  intro e o1 o2 a s1 s2 d1 d2
+  cases he : d.ent e with
+  | none =>
+    have hsup : supsOf d e = [] := by unfold supsOf; rw [he]
+    have only : ∀ o, SupStar d e o → o = e := by
+      intro o hs
+      cases hs with
+      | refl => rfl
+      | head hm _ => rw [hsup] at hm; cases hm
+    rw [only o1 s1, only o2 s2]
+  | some ent =>
+    unfold Dict.ent at he
+    have hmem := List.mem_of_find?_eq_some he
+    have hname : ent.name = e := by simpa using List.find?_some he
+    unfold inheritUniqueB at hb
+    rw [List.all_eq_true] at hb
+    have hn := hb ent hmem
+    rw [hname] at hn
+    have hn' := of_decide_eq_true hn
+    have m1 := (C11_types_closure d rank h e o1).mpr s1
+    have m2 := (C11_types_closure d rank h e o2).mpr s2
+    have mem_of : ∀ o, Declares d o a → a ∈ (attrsOf d o).map (·.1) := by
+      intro o hd
+      unfold Declares at hd
+      rw [List.any_eq_true] at hd
+      obtain ⟨p, hp, hpa⟩ := hd
+      exact List.mem_map.mpr ⟨p, hp, by simpa using hpa⟩
+    exact nodup_flatMap_owner _ _ hn' o1 m1 o2 m2 a (mem_of o1 d1) (mem_of o2 d2)
+
+/-- every hypothesis discharged on `demoDict`: the target `#1` is a `tsub2` (entity 2), which inherits `INVERSE inv : SET OF rel FOR one`
+    from its grand-supertype (entity 0); `#2` and `#3` are `rel`s (entity 3), `#2.one = #1`, `#3.one` unset; `#4` is another `tsub2`.
+    The slot of `#1` holds exactly `[2]` -/
+theorem C11_exact_schema_instance_witness :
+    let spop : List SInst := [⟨1, [2], fun _ _ => []⟩, ⟨2, [3], fun o a => if o = 3 ∧ a = 10 then [1] else []⟩,
+                              ⟨3, [3], fun _ _ => []⟩, ⟨4, [2], fun _ _ => []⟩]
+    resolveD demoDict (spop.map (encode demoDict)) 1 2 ⟨0, true, 3, 10⟩ = .ok [2] := by
+  intro spop
+  have hr : Ranked demoDict demoRank :=
+    ⟨by decide, fun n => by unfold demoRank; split <;> (try split) <;> (try split) <;> simp [demoDict]⟩
+  have hu : InheritUnique demoDict := inheritUnique_of_check demoDict demoRank hr (by decide)
+  have hsimple : ∀ y ∈ spop, ∃ k', y.ents = [k'] := by
+    intro y hy
+    simp only [spop, List.mem_cons, List.mem_nil_iff, or_false] at hy
+    rcases hy with rfl | rfl | rfl | rfl <;> exact ⟨_, rfl⟩
+  have hnr : ∀ y ∈ spop, ∀ k', y.ents = [k'] → (redeclOf demoDict k').contains (10 : Nat) = false := by
+    intro y hy k' hk'
+    simp only [spop, List.mem_cons, List.mem_nil_iff, or_false] at hy
+    rcases hy with rfl | rfl | rfl | rfl <;> (simp only [List.cons.injEq, and_true] at hk'; subst hk'; decide)
+  have := C11_exact_schema_partial demoDict demoRank hr (by unfold AttrNamesUnique; decide) hu spop hsimple 1 2
+    ⟨⟨1, [2], fun _ _ => []⟩, by simp [spop], rfl, rfl⟩ ⟨0, true, 3, 10⟩ (by decide) rfl
+    ⟨3, SupStar.refl, by unfold Declares; decide⟩ hnr
+  rw [this]
+  -- the specification side, evaluated: only `#2` is a referrer
+  have r2 : Referrer demoDict 1 ⟨0, true, 3, 10⟩ ⟨2, [3], fun o a => if o = 3 ∧ a = 10 then [1] else []⟩ :=
+    ⟨3, by simp, SupStar.refl, 3, SupStar.refl, by unfold Declares; decide, by simp⟩
+  have nr : ∀ (i : Nat) (es : List Nat), ¬ Referrer demoDict 1 ⟨0, true, 3, 10⟩ ⟨i, es, fun _ _ => []⟩ := by
+    rintro i es ⟨_, _, _, _, _, _, hx⟩
+    cases hx
+  simp [spop, r2, nr]
+
 /-! ## the registry assumption, derived from the generated schema init code (C02's model) -/
 
 section Registry
